@@ -18,13 +18,26 @@ import (
 // The script: the welcome changes the nick, the client joins a channel, another
 // user joins it and talks. The new nick's last byte, the channel name and the
 // other user's nick are symbolic.
-func vMakeScript() (script []string, nick, channel, user string) {
+func vMakeScript(kind int) (script []string, nick, channel, user string) {
 	nb, cb, ub := vStr("s-nick", 1), vStr("s-chan", 1), vStr("s-user", 1)
 	for _, b := range []byte{nb[0], cb[0], ub[0]} {
 		vAssume(b < 0x80 && b != 0 && b != ' ' && b-9 >= 5 && b != ':' && b != '!' && b != '@' && b != '#' && b != '&' && b != ',' && b != '*')
 	}
 	nick, channel, user = "me"+nb, "#"+cb, "u"+ub
 	vAssume(user != nick)
+	if kind == 1 {
+		// a tracker-centred session without the welcome: the client (still "me") joins, another
+		// user joins, is renamed, gets a privilege, sets the topic
+		nick = "me"
+		script = []string{
+			":me!i@h JOIN " + channel,
+			":" + user + "!i@h JOIN " + channel,
+			":" + user + "!i@h NICK " + user + "x",
+			":me!i@h MODE " + channel + " +o " + user + "x",
+			":" + user + "x!i@h TOPIC " + channel + " :t",
+		}
+		return
+	}
 	script = []string{
 		":srv 001 " + nick + " :Welcome",
 		":" + nick + "!i@h JOIN " + channel,
@@ -56,6 +69,7 @@ type vSess struct {
 	script              []string
 	nick, channel, user string
 	tseq, tid, tbeh     int // the one handler invocation that misbehaves (yields mid-way / panics / blocks)
+	kind                int // which script (0: welcome, join, ping, join, privmsg; 1: tracker-centred)
 }
 
 func (s *vSess) seqOf(l *Line) int {
@@ -69,6 +83,9 @@ func (s *vSess) seqOf(l *Line) int {
 
 // applied reports whether the tracker / client reflects script line seq.
 func (s *vSess) applied(seq int) bool {
+	if s.kind == 1 {
+		return s.progress() >= seq
+	}
 	switch seq {
 	case 0:
 		return s.conn.Me().Nick == s.nick
@@ -80,8 +97,33 @@ func (s *vSess) applied(seq int) bool {
 	return true
 }
 
+// progress: the last line of the tracker-centred script that the tracker reflects
+// (-1: none). Every line of that script moves the state forward in a way the
+// public queries can see, and none moves it back.
+func (s *vSess) progress() int {
+	st := s.conn.st
+	ch := st.GetChannel(s.channel)
+	if ch == nil {
+		return -1
+	}
+	ux := s.user + "x"
+	if ch.Topic == "t" {
+		return 4
+	}
+	if cp, on := ch.Nicks[ux]; on && st.GetNick(ux) != nil {
+		if cp.Op {
+			return 3
+		}
+		return 2
+	}
+	if _, on := ch.Nicks[s.user]; on && st.GetNick(s.user) != nil {
+		return 1
+	}
+	return 0
+}
+
 // stateful: script lines whose effect on the client / tracker the harness can observe.
-func vStateful(seq int) bool { return seq == 0 || seq == 1 || seq == 3 }
+func (s *vSess) stateful(seq int) bool { return s.kind == 1 || seq == 0 || seq == 1 || seq == 3 }
 
 func (s *vSess) anyActive() bool {
 	for _, n := range s.activeFG {
@@ -136,7 +178,7 @@ func (s *vSess) handler(id int, fg bool) HandlerFunc {
 			if fg && s.track {
 				s.mu.Lock()
 				for later := seq + 1; later < s.n; later++ {
-					if vStateful(later) {
+					if s.stateful(later) {
 						vAssert(!s.applied(later), "tracker-not-ahead-while-fg-handler-runs")
 					}
 				}
@@ -167,7 +209,8 @@ func VerifSession() {
 	vYieldKinds(vParamKinds())
 	n := vParam("N", 3)
 	s := &vSess{n: n, activeFG: map[int]int{}, entered: map[[2]int]int{}, track: vParam("TRACK", 1) == 1, panics: vParam("PANICS", 0) == 1, never: make(chan struct{}), gate: make(chan struct{})}
-	s.script, s.nick, s.channel, s.user = vMakeScript()
+	s.kind = vParam("SCRIPT", 0)
+	s.script, s.nick, s.channel, s.user = vMakeScript(s.kind)
 	vScript := s.script
 	s.tseq, s.tid, s.tbeh = vLen("tseq", 0, n-1), vLen("tid", 0, 2), vLen("tbeh", 0, 3)
 	gated := s.tbeh == 3 && s.tid < 2
@@ -204,7 +247,7 @@ func VerifSession() {
 	if s.track {
 		conn.EnableStateTracking()
 	}
-	for _, ev := range []string{"001", "JOIN", "PING", "PRIVMSG"} {
+	for _, ev := range []string{"001", "JOIN", "PING", "PRIVMSG", "NICK", "MODE", "TOPIC"} {
 		conn.HandleFunc(ev, s.handler(0, true))
 		conn.HandleFunc(ev, s.handler(1, true))
 		conn.HandleBG(ev, s.handler(2, false))
@@ -249,7 +292,9 @@ func VerifSession() {
 				vAssert(s.entered[[2]int{seq, id}] == 1, "every-handler-of-every-line-exactly-once")
 			}
 		}
-		vAssert(s.connEnter == 1 && s.connDone == 1, "CONNECTED-once")
+		if s.kind == 0 {
+			vAssert(s.connEnter == 1 && s.connDone == 1, "CONNECTED-once")
+		}
 		vAssert(s.recovered == s.panicked, "every-panic-reached-Recover")
 		vAssert(s.discEnter == 0 && conn.Connected(), "still-connected")
 		s.mu.Unlock()
